@@ -131,10 +131,10 @@ def _run(pyargs, env_extra, *args):
 
 def bounded(tier, seed, procs):
     b = BoundedRun("two-process", rule="producer and consumer interpreters with different PYTHONHASHSEED (and -O vs default): the producer builds "
-                   "the corpus (every built-in node class, fixture/legacy classes, the shipped Rational and Polynomial node types, user node types with an init=False field, multivectors with symbolic coefficients, compiled expressions), applies a history over {hash, eq, pickle round trip} "
+                   "the corpus (every built-in node class, fixture/legacy classes, the shipped Rational and Polynomial node types, user node types with an init=False field, multivectors with symbolic coefficients, parsed expressions with list literals, compiled expressions), applies a history over {hash, eq, pickle round trip} "
                    "of length <= 2, pickles with every protocol and records persistent digests; the consumer unpickles and checks ==, hash, dict/set look-up "
                    "against expressions built from source there, the absence of a stale cached hash, the digests, and compiled callables; "
-                   "non-trivial = every (expression, protocol, history, configuration) combination", bound="57 expressions x 6 protocols x 7 histories x 3 configurations",
+                   "non-trivial = every (expression, protocol, history, configuration) combination", bound="60 expressions x 6 protocols x 7 histories x 3 configurations",
                    functions=["generated __getstate__/__setstate__/__hash__", "Expression.__getstate__/__setstate__", "PersistentHashWalkMapper", "CompiledExpression.__getstate__/__setstate__"])
     hist = ["none", "hash", "hash,roundtrip", "roundtrip,hash", "hash,eq", "eq,roundtrip", "hash,hash"]
     if tier == "quick":
@@ -156,7 +156,7 @@ def bounded(tier, seed, procs):
                 n = 0
                 for line in r2.stdout.splitlines():
                     if line.startswith("CHECKED"):
-                        n = 57 * 6
+                        n = 60 * 6
                     if line.startswith("PROBLEM "):
                         kind = "digest" if "persistent digest" in line else ("compiled" if line.startswith("PROBLEM compiled") else "pickle")
                         b.fail(Failure("two-process", f"what={kind} producer=({ps},{pflags}) consumer=({cs},{cflags}) history={h} {line[8:200]}",
